@@ -17,6 +17,7 @@ type Prop struct {
 	Explanation string   // what is decided (the structural clauses) and what is not
 	NotCovered  string
 	Trust       []string
+	Technique   string
 	Run         func(c *core.Check)
 	Thorough    func(c *core.Check) // extra work in the thorough tier
 }
